@@ -88,7 +88,7 @@ struct Flow : Prop {
 				for (int i = 0; i < no; i++) {
 					uint64_t x = r.below(100);
 					if (x < 6) { J f = J::obj(); f.set("op", "flush"); ops.push(f); continue; }
-					if (x < 14) { J f = J::obj(); f.set("op", "sleep"); f.set("us", r.chance(300) && !is_c04 ? (int) r.range(900000, 2600000) : (int) r.range(100, 40000)); ops.push(f); continue; }
+					if (x < 14) { J f = J::obj(); f.set("op", "sleep"); f.set("us", r.chance(300) && !is_c04 ? (int) r.range(900000, 2600000) : (is_c04 && r.chance(200)) ? (int) r.range(2050000, 3200000) : (int) r.range(100, 40000)); ops.push(f); continue; }
 					const std::vector<uint8_t> &ad = r.chance(600) ? hot : tree[r.below(tree.size())].addr;
 					const cat::LL *f = &cat::table[(r.chance(is_c04 ? 500 : 850) ? requests : cheap)[0]];
 					{ auto &v = r.chance(is_c04 ? 500 : 850) ? requests : cheap; f = &cat::table[v[r.below(v.size())]]; }
@@ -123,7 +123,7 @@ struct Flow : Prop {
 					J e = J::obj(); e.set("node", pc::jaddr(sn)); e.set("type", (int) MSG_STALL); e.set("data", pc::jarr({1})); e.set("tag", 10);
 					if (!r.chance(100)) evs.push_back({t_on, e});     // (sometimes: unstall without stall)
 					if (r.chance(150)) evs.push_back({t_on + (int) r.range(1, 5000), e});   // repeated notice
-					if (r.chance(700)) { J e0 = J::obj(); e0.set("node", pc::jaddr(sn)); e0.set("type", (int) MSG_STALL); e0.set("data", pc::jarr({0})); e0.set("tag", 11); evs.push_back({t_on + (int) r.range(1000, 60000), e0}); }
+					if (r.chance(700)) { J e0 = J::obj(); e0.set("node", pc::jaddr(sn)); e0.set("type", (int) MSG_STALL); e0.set("data", pc::jarr({0})); e0.set("tag", 11); evs.push_back({t_on + (r.chance(250) ? (int) r.range(2200000, 4500000) : (int) r.range(1000, 60000)), e0}); }   // (a quarter of the stalls lasts longer than the 2 s response expiry)
 				}
 			}
 			std::stable_sort(evs.begin(), evs.end(), [](const std::pair<int, J> &a, const std::pair<int, J> &b) { return a.first < b.first; });
